@@ -3,8 +3,9 @@
 # 1. confirms the seeded change in the scratch worktree /tmp/wt_seed (builds, existing tests of the touched
 #    module pass, demo fails with the change and passes without), 2. applies it to /repo, runs the check, reverts.
 export GOFLAGS=-mod=mod GOPROXY=off GOSUMDB=off GOTOOLCHAIN=local
-sd=$1; prop=$2; tier=${3:-quick}
+sd=$(realpath $1); prop=$2; tier=${3:-quick}
 wt=/tmp/wt_seed
+[ -d $wt/.git ] || [ -f $wt/.git ] || { git -C /repo worktree prune; git -C /repo worktree add -q --detach $wt HEAD || exit 3; }
 pkg=$(cat $sd/demo_pkg.txt | tr -d '\n ')
 tags=""
 grep -qi purego $sd/notes.txt 2>/dev/null && grep -q "tags purego" $sd/notes.txt && tags="-tags purego"
